@@ -40,7 +40,8 @@ INVALID = [
 ]
 # contradictory / mis-typed ones found by review of parse_args (a style named on and keyed off,
 # colour values of a type that cannot name a colour)
-INVALID += [[["bold"], {"bold": 0}], [[], {"style": "italic", "italic": 0}],
+INVALID += [[[], {"style": ""}], [[], {"style": 0}], [[], {"style": False}], [[], {"style": []}],
+            [["bold"], {"bold": 0}], [[], {"style": "italic", "italic": 0}],
             [["bold"], {"bold": False}], [[], {"style": "underline", "underline": False}],
             [[], {"fg": [31]}], [[], {"bg": {}}], [[], {"fg": 31.5}], [[], {"fg": True}], [[], {"bg": b"blue"}]]
 # unusual but meaningful values: ValueError or the obvious meaning (see kind "lenient")
